@@ -40,6 +40,25 @@ CHECKS = {
             "cache-free twin's; agent-scope owner isolation asserted directly. Cache configs: stage LRU, perf byte caches, turn-level manager.",
             "Trusted: cache-free twin as oracle (same code, caches off); TTL expiry not exercised.",
             "DESIGN.md §3 C05"),
+    "C07": ("exploration",
+            "exhaustive enumeration of small JSON object pairs + Hypothesis recursive JSON + atheris byte fuzzing of the delta codec (round-trip law), Hypothesis-generated on-disk scenarios with baseline present/missing/corrupt",
+            "Codec law apply_delta(base, compute_delta(base, cur)) == cur in type-exact canonical JSON (also after the delta is "
+            "serialised), inputs unmutated: every ordered pair of a stated universe of small objects (2.5e5 pairs quick, 8.7e6 thorough), "
+            "Hypothesis recursive JSON with dotted/empty/unicode keys and dict<->scalar flips, atheris structure-aware byte target. "
+            "On disk: write_snapshot_auto full then delta, all readers with the baseline present (must equal P1), missing, etag-mismatched "
+            "or corrupt (truncation at every structural offset, random blobs): accepted outcomes are raise / {} / not loaded / exactly P1.",
+            "Trusted: canonical-JSON equality as oracle; codec 'none' only (zstandard is not installed).",
+            "DESIGN.md §3 C07"),
+    "C08": ("fault_enumeration",
+            "I/O fault-point enumeration: every recorded I/O step of a write x every fault kind (kill before/after/mid, short write, persistent and transient errnos) in forked children, plus real RLIMIT_FSIZE faults and concurrent readers",
+            "A proxy layer over os/open/tempfile/time/Path as seen by clematis.io.atomic records the ordered I/O steps of one write "
+            "(18 for atomic_write_bytes, 36 with a sidecar); for every step and every fault kind the write is re-run (kills as os._exit "
+            "in a forked child) for 6-7 targets (atomic_write_bytes/text/json, write_snapshot body+sidecar, delta _write_lines, "
+            "rewrite_jsonl) x content/permission classes; the parent checks old-or-new completeness, bystander files, leftovers vs "
+            "snapshot discovery and log globs, retry semantics, sidecar fail-soft. Hypothesis generates further contents; a reader thread "
+            "and a reader process race the writer (every read exactly A or B).",
+            "Crash model: process death between two Python-visible I/O calls (no power-loss reordering below the FS API).",
+            "DESIGN.md §3 C08"),
     "C11": ("exploration",
             "Hypothesis property test: envelope predicates + exact differential against a float64 reference retrieval on well-separated cases + metamorphic rerank-off relation",
             "Generated memories (owners, timestamps around the recency window, clusters, importance, bag-of-words/explicit/zero/missing "
@@ -49,6 +68,15 @@ CHECKS = {
             "(same case with layers off) and residual nudges (existing node, label in a used hit, caps).",
             "Trusted: harness/models/t2.py; float32-vs-float64 band 1e-6; in-memory backend only (lancedb is not installed).",
             "DESIGN.md §3 C11"),
+    "C17": ("exploration",
+            "exhaustive breadth-first enumeration of scheduler histories to saturation against a reference model + Hypothesis rule-based machine + generated yield decisions + real turns under a scripted clock",
+            "All selection/yield histories (clock advance, next_turn, on_yield, optional rotation) for 1-4 agents, allowance 1-3, aging "
+            "{0,1,5}, both policies, memoised on normalised state to saturation: purity/determinism, eligibility/reset rule, fair-queue "
+            "argmax, bookkeeping and the wait bound 2(n-1)m+1; random long histories with up to 6 agents and arbitrary clock jumps; "
+            "_should_yield vs reference precedence on generated budgets/consumption; real Orchestrator.run_turn with scheduling on and "
+            "perf_counter scripted: one yield event at a stage boundary, reason admissible, no later-stage records, stage work within budgets.",
+            "Trusted: harness/models/scheduler.py; where docs are silent (order among several BUDGET_* reasons, per-graph vs per-slice T1 budget) both readings are admitted.",
+            "DESIGN.md §3 C17"),
 }
 
 NOT_APPLICABLE = {
